@@ -220,6 +220,15 @@ def _constraint_fn(con, weights):
     return lambda sums: [sums[0] >= c]
 
 
+def batch_harness_errors(results):
+    total = sum(d["notes"].get("requests", 0) for d in results.values())
+    blind = sum(d["notes"].get("requests_answered_without_the_solver", 0) for d in results.values())
+    if total >= 20 and blind * 2 > total:
+        return [f"solver seam not reached: {blind} of {total} ILP requests never called mip.Model.optimize - the tree under test seems to "
+                f"drive the solver through an entry point the simulator does not own; nothing can be concluded"]
+    return []
+
+
 def _present(value, form):
     """How the caller spells a per-item / per-bin option: a list (documented), or another sequence type; one number
     for all items may be a numpy integer (e.g. the result of arr.max())."""
@@ -395,8 +404,11 @@ def execute(plan, seed=0):
     tr.add("call", outcome=canon(outcome[1]), solver_fired=fired, forwarded_max_seconds=canon(forwarded), solver_calls=_solver.calls)
     for k_, v_ in fired.items():
         res.fault(k_, v_)
+    res.note("requests")
     if _solver.calls == 0:
-        raise RuntimeError("solver seam not reached: mip.Model.optimize was never called")
+        # the request was answered without the solver (nothing to place, say): no solver fault can fire, so the answer
+        # is judged by the fault-free oracle below. Whether the solver seam is reached AT ALL is decided over the batch.
+        res.note("requests_answered_without_the_solver")
     nontrivial = bool(fired) or bool(s.get("x_noise")) or bool(plan.get("prior")) or plan["copies"] not in (None, 1) or plan["weights"] is not None or plan["constraint"] is not None or plan["time_limit"] is not None
     tolerance_noise = fired.pop(NOISE, 0)
     if tolerance_noise:
